@@ -1,4 +1,5 @@
 import HailVerif.Model.MatrixType
+import HailVerif.Proofs.TableType
 /-! # Keys of the MatrixTable type transformers (C36) -/
 namespace HailVerif.MatrixType
 open HailVerif.TableType
@@ -43,12 +44,45 @@ theorem keyRowsBy_spec {m m' : MType} {fields : List String} (h : keyRowsBy m fi
 
 theorem unionCols_keeps {l r m : MType} (h : unionCols l r = some m) :
     m.rowKey = l.rowKey ∧ m.colKey = l.colKey ∧ m.col = l.col ∧ m.entry = l.entry ∧ m.globals = l.globals := by
-  unfold unionCols at h
+  unfold unionCols unionColsWith at h
   simp only [] at h
   split at h
   · simp at h
   · split at h
     · simp at h
-    · simp only [Option.some.injEq] at h; subst h; exact ⟨rfl, rfl, rfl, rfl, rfl⟩
+    · simp only [concatPy, Option.map_some, Option.some.injEq] at h; subst h; exact ⟨rfl, rfl, rfl, rfl, rfl⟩
+
+theorem filterMap_key_subset (row : FieldList) (ks : List String) :
+    ∀ n ∈ names (ks.filterMap fun k => (lookupF row k).map fun ty => (k, ty)), n ∈ names row := by
+  intro n hn
+  simp only [names, List.mem_map, List.mem_filterMap, Option.map_eq_some_iff] at hn
+  obtain ⟨p, ⟨k, _, ty, hty, rfl⟩, rfl⟩ := hn
+  exact lookupF_mem hty
+
+/-- **the emitted `MatrixUnionCols` is well typed, with the row type the `MatrixTable` reports**: after the renaming the right
+value fields have fresh, pairwise distinct names, so the engine's strict concatenation succeeds and equals the dict update -/
+theorem unionColsStrict_eq (l r : MType) : unionColsStrict l r = unionCols l r := by
+  unfold unionColsStrict unionCols unionColsWith
+  simp only []
+  split
+  · rfl
+  · split
+    · rfl
+    · rename_i new hnew
+      obtain ⟨hl, hn, hf⟩ := dedupAll_spec _ _ _ hnew
+      have e : names (renameFields (r.row.filter fun p => !r.rowKey.contains p.1) new) = new :=
+        names_renameFields _ _ (by simp only [names, List.length_map] at hl; omega)
+      rw [concat_agree (by rw [e]; exact hn)]
+      intro n hm h
+      rw [e] at hm
+      apply hf n hm
+      simp only [List.mem_append]
+      refine Or.inl (Or.inr ?_)
+      simp only [names, List.map_append, List.mem_append] at h
+      rcases h with h | h
+      · exact filterMap_key_subset l.row l.rowKey n h
+      · simp only [List.mem_map, List.mem_filter] at h
+        obtain ⟨p, ⟨hp, _⟩, rfl⟩ := h
+        exact List.mem_map.2 ⟨p, hp, rfl⟩
 
 end HailVerif.MatrixType
